@@ -131,10 +131,12 @@ Layout ==
   (* IEEE Std 802.2-1998 5.2 control field formats.  The standard numbers control bits 1.. from the LEAST significant bit
      of the first control octet: I format: bit 1 = 0, bits 2-8 N(S), bit 9 P/F, bits 10-16 N(R); S format: bits 1-2 = 1 0,
      bits 3-4 S S, bits 5-8 reserved, bit 9 P/F, bits 10-16 N(R); U format (one octet): bits 1-2 = 1 1, bits 3-4 M M,
-     bit 5 P/F, bits 6-8 M M M.  Translated to MSB-first positions inside octets 2 (and 3) of the LLC header. *)
-  "LLC_info" :> C(4, FALSE, LlcHead @@ [send_seq_number |-> P(16, 7), receive_seq_number |-> P(24, 7), poll_final |-> P(31, 1)]) @@
-  "LLC_super" :> C(4, FALSE, LlcHead @@ [supervisory_function |-> P(20, 2), receive_seq_number |-> P(24, 7), poll_final |-> P(31, 1)]) @@
-  "LLC_unnumbered" :> C(3, FALSE, LlcHead @@ [poll_final |-> P(19, 1)]) @@
+     bit 5 P/F, bits 6-8 M M M.  Translated to MSB-first positions inside octets 2 (and 3) of the LLC header.
+     `format` names the bits that select the control format (no accessor: the harness fixes them by constructing the
+     variant); they are assigned bits, so a parsed prior state never has other values in them. *)
+  "LLC_info" :> C(4, FALSE, LlcHead @@ [send_seq_number |-> P(16, 7), format |-> P(23, 1), receive_seq_number |-> P(24, 7), poll_final |-> P(31, 1)]) @@
+  "LLC_super" :> C(4, FALSE, LlcHead @@ [supervisory_function |-> P(20, 2), format |-> P(22, 2), receive_seq_number |-> P(24, 7), poll_final |-> P(31, 1)]) @@
+  "LLC_unnumbered" :> C(3, FALSE, LlcHead @@ [poll_final |-> P(19, 1), format |-> P(22, 2)]) @@
   (* LINKTYPE_LINUX_SLL (tcpdump.org/linktypes/LINKTYPE_LINUX_SLL.html): packet type, ARPHRD_ type, address length,
      address (8 octets), protocol -- all big-endian *)
   "SLL" :> C(16, TRUE, [packet_type |-> P(0, 16), lladdr_type |-> P(16, 16), lladdr_len |-> P(32, 16), address |-> A(48, 64),
